@@ -198,7 +198,7 @@ Shown(s) == [valid |-> ~crashed', key |-> repKey', loc |-> repLoc',
 
 (* ---- bounded / history-recording actions ---- *)
 Bounded == MaxOps = 0 \/ nops < MaxOps
-Step(e) == /\ nops' = nops + 1 /\ tr' = Append(tr, e)
+Step(e) == /\ Bounded /\ nops' = nops + 1 /\ tr' = Append(tr, e)
 Other   == last' = NoScrape
 
 Open(ip)     == MayRun /\ nconn < MaxConn /\ OpenCore(nconn + 1, ip) /\ Other
@@ -218,13 +218,17 @@ CollectLocked(s) == /\ ~crashed /\ CollectLockedCore(s)
                     /\ Step([a |-> "CollectLocked", s |-> s, crash |-> crashed',
                              rk |-> repKey', rl |-> repLoc'])
 
-Next == /\ Bounded
-        /\ \/ \E ip \in IPs : Open(ip)
-           \/ \E c \in Conns, k \in Keys : Auth(c, k)
-           \/ \E c \in Conns : Close(c) \/ NatRemove(c) \/ RemoveAgain(c) \/ Probe(c) \/ Packet(c)
-           \/ \E ip \in IPs, k \in Keys : NatAdd(ip, k)
-           \/ \E d \in TickSet : Tick(d)
-           \/ \E s \in Scrapers : CollectBegin(s) \/ CollectLocked(s)
+Next == \/ \E ip \in IPs : Open(ip)
+        \/ \E c \in Conns, k \in Keys : Auth(c, k)
+        \/ \E c \in Conns : Close(c)
+        \/ \E c \in Conns : NatRemove(c)
+        \/ \E c \in Conns : RemoveAgain(c)
+        \/ \E c \in Conns : Probe(c)
+        \/ \E c \in Conns : Packet(c)
+        \/ \E ip \in IPs, k \in Keys : NatAdd(ip, k)
+        \/ \E d \in TickSet : Tick(d)
+        \/ \E s \in Scrapers : CollectBegin(s)
+        \/ \E s \in Scrapers : CollectLocked(s)
 
 Spec == Init /\ [][Next]_vars
 
@@ -256,8 +260,8 @@ RefCountMatches == \A p \in Pairs : active[p].cnt = Cardinality(OpenTunnels(p))
 StartNotInFuture == \A p \in Pairs : active[p].start <= clock
 
 \* vacuity witnesses (must be VIOLATED by TLC when listed as invariants)
-WitnessOverlap == ~(\E p \in Pairs : active[p].cnt >= 2 /\ clock > active[p].start)
-WitnessScrapeNonZero == ~(last.valid /\ \E k \in Keys : last.key[k] >= 2 /\ last.loK # last.hiK)
+\* a scrape shows >= 2 units for some key while some client has two overlapping tunnels open
+Witness == ~(last.valid /\ (\E k \in Keys : last.key[k] >= 2) /\ (\E p \in Pairs : active[p].cnt >= 2))
 
 View == <<mech, ideal, last>>
 ===============================================================================
